@@ -144,28 +144,18 @@ impl<K: Ord + Copy, V> Dag<K, V> {
     }
 
     /// Merge a DAG into this one.
-    pub fn merge(&mut self, mut other: Self) {
-        let Some((root, _)) = other.roots().next() else {
-            return;
-        };
-        let mut visited = BTreeSet::new();
-        let mut queue = VecDeque::<K>::from([*root]);
-
-        while let Some(next) = queue.pop_front() {
-            if !visited.insert(next) {
-                continue;
+    pub fn merge(&mut self, other: Self) {
+        // Nb. every node of `other` is merged, not only the ones reachable from
+        // one of its roots: `other` may have several roots.
+        for (next, node) in other.graph {
+            if !self.contains(&next) {
+                self.node(next, node.value);
             }
-            if let Some(node) = other.graph.remove(&next) {
-                if !self.contains(&next) {
-                    self.node(next, node.value);
-                }
-                for k in &node.dependents {
-                    self.dependency(*k, next);
-                }
-                for k in &node.dependencies {
-                    self.dependency(next, *k);
-                }
-                queue.extend(node.dependents.iter());
+            for k in &node.dependents {
+                self.dependency(*k, next);
+            }
+            for k in &node.dependencies {
+                self.dependency(next, *k);
             }
         }
     }
@@ -568,6 +558,27 @@ mod tests {
         assert!(a.tips.contains(&3));
         assert!(a.tips.contains(&4));
         assert!(a.roots.contains(&0));
+    }
+
+    #[test]
+    fn test_merge_multiple_roots() {
+        let mut a = Dag::new();
+        let mut b = Dag::new();
+
+        a.node(0, ());
+
+        b.node(1, ());
+        b.node(2, ());
+        b.node(3, ());
+        b.dependency(3, 2);
+
+        a.merge(b);
+
+        assert_eq!(a.len(), 4);
+        assert!(a.has_dependency(&3, &2));
+        assert!(a.get(&2).unwrap().dependents.contains(&3));
+        assert_eq!(a.roots.iter().collect::<Vec<_>>(), vec![&0, &1, &2]);
+        assert_eq!(a.tips.iter().collect::<Vec<_>>(), vec![&0, &1, &3]);
     }
 
     #[test]
